@@ -6,7 +6,27 @@ import (
 	"iter"
 	"reflect"
 	"slices"
+	"sync"
 )
+
+// ordMu serialises the seam's bookkeeping ONLY when the library runs
+// goroutines of its own (jitter mode, C10 only). It is never taken otherwise:
+// in C11 a mutex here would order the tasks for the race detector.
+var ordMu sync.Mutex
+
+//go:norace
+func ordLock() {
+	if jitter {
+		ordMu.Lock()
+	}
+}
+
+//go:norace
+func ordUnlock() {
+	if jitter {
+		ordMu.Unlock()
+	}
+}
 
 // Map-order seam. Every `range m` over a map in library code is rewritten to
 // `range verifsim_.Ordered(m, site)`; the order in which keys are visited is
@@ -83,6 +103,8 @@ func slot() int32 {
 //
 //go:norace
 func BeginOp(c OrderCfg) {
+	ordLock()
+	defer ordUnlock()
 	o := &ord[slot()]
 	o.cfg = c
 	o.rng = c.Seed
@@ -98,6 +120,8 @@ func BeginOp(c OrderCfg) {
 //
 //go:norace
 func EndOp() []Visit {
+	ordLock()
+	defer ordUnlock()
 	o := &ord[slot()]
 	n := o.nvisit
 	if n > maxVisits {
@@ -115,6 +139,8 @@ func EndOp() []Visit {
 //
 //go:norace
 func decide(site int32, n int) (OrderRule, int32) {
+	ordLock()
+	defer ordUnlock()
 	o := &ord[slot()]
 	v := o.nvisit
 	o.nvisit++
@@ -170,6 +196,8 @@ func capture() bool { return ord[slot()].cfg.CaptureKeys }
 
 //go:norace
 func record(v int32, r OrderRule, n int, eff bool, keys []string) {
+	ordLock()
+	defer ordUnlock()
 	o := &ord[slot()]
 	if v < maxVisits {
 		o.visits[v] = Visit{r.Site, r.Nth, int32(n), r.Mode, r.Arg, r.KeyA, r.KeyB, eff, keys}
